@@ -54,30 +54,41 @@ static unsigned long sp_ffo(view_t h, const char *set, unsigned long m, unsigned
 static unsigned long sp_flo(view_t h, const char *set, unsigned long m, unsigned long pos, _Bool neg) { for (int i = N - 1; i >= 0; --i) if ((unsigned long)i <= pos && (unsigned long)i < h.n && sp_in_set(h.a[i], set, m) != neg) return (unsigned long)i; return NPOS; }
 
 #define ARB(v) VF_INPUT(S, v); __CPROVER_assume(WF(v))
+/* XBUF: same contract as VF_BUF (exact-size heap buffer of n elements copied from the input array name_in, not terminated, nothing behind
+ * the last element), but the allocation is one of N+3 objects of CONCRETE size: a malloc of symbolic size makes every access a byte_extract
+ * over a symbolic-size array (measured: 55 s instead of 4 s for one constructor at N=16). */
+#if defined(VF_NATIVE) || defined(VF_SCAN)
+#define XALLOC(n) ((char *)VF_ALLOC(n))
+#else
+static char *xalloc(unsigned long n) { for (unsigned long k = 0; k <= N + 2; ++k) if (k == n) return (char *)malloc(k); __CPROVER_assume(0); return 0; }
+#define XALLOC(n) xalloc(n)
+#endif
+#define XBUF(T, name, n, MAX) VF_INPUT_ARR(T, name##_in, (MAX) + 1); __CPROVER_assume((unsigned long)(n) <= (unsigned long)(MAX)); T *name = XALLOC((unsigned long)(n)); \
+  for (unsigned long vf_i_##name = 0; vf_i_##name < (unsigned long)(n); ++vf_i_##name) name[vf_i_##name] = name##_in[vf_i_##name]
 /* C string of exactly len characters in an exact-size buffer of len+1 bytes */
-#define CSTR(name, len, MAX) VF_BUF(char, name, (unsigned long)(len) + 1, (MAX) + 1); __CPROVER_assume(name##_in[len] == 0); \
+#define CSTR(name, len, MAX) XBUF(char, name, (unsigned long)(len) + 1, (MAX) + 1); __CPROVER_assume(name##_in[len] == 0); \
   for (int vf_j_##name = 0; vf_j_##name < (MAX); ++vf_j_##name) __CPROVER_assume((unsigned long)vf_j_##name >= (unsigned long)(len) || name##_in[vf_j_##name] != 0)
 #define POST(s, expect, what) VF_ASSERT(WF(s), "C04: wf after " what ": size() <= capacity() and data()[size()] == 0"); VF_ASSERT(view_eq(view_of(&(s)), (expect)), "C04: " what)
 #define CAPACITY_UNCHANGED(v) VF_ASSERT(s_capacity(&(v)) == N && s_max_size(&(v)) == N, "capacity() and max_size() are always N")
 
-/*@GROUP name=default_ctor props=C04,C02 kind=K unwind=36@*/
+/*@GROUP name=default_ctor props=C04,C02 kind=K unwind=21 when=VF_N<=16@*/
 void h_default_ctor(void) { VF_INPUT(S, s); /* indeterminate storage */ s_ctor_default(&s);
   POST(s, sp_empty(), "basic_inplace_string(): empty"); VF_ASSERT(s_size(&s) == 0 && s_empty(&s), "default construction: size() == 0"); CAPACITY_UNCHANGED(s); VF_REACH(); }
 
-/*@GROUP name=ctor_fill props=C04,C02,C05 kind=K unwind=36@*/
+/*@GROUP name=ctor_fill props=C04,C02,C05 kind=K unwind=21 when=VF_N<=16@*/
 void h_ctor_fill(void) { VF_INPUT(S, s); VF_INPUT(unsigned char, c); VF_INPUT(char, ch); __CPROVER_assume(c <= N); fill_t f = sp_fill(ch);
   s_ctor_n_ch(&s, c, ch); POST(s, sp_splice(sp_empty(), 0, 0, f.a, c), "basic_inplace_string(count, ch): count copies of ch"); VF_REACH(); }
 
-/*@GROUP name=ctor_buf props=C04,C02,C05 kind=K unwind=36@*/
-void h_ctor_buf(void) { VF_INPUT(S, s); VF_INPUT(unsigned char, c); VF_INPUT(unsigned char, which); __CPROVER_assume(c <= N); VF_BUF(char, src, c, N);
+/*@GROUP name=ctor_buf props=C04,C02,C05 kind=K unwind=21 when=VF_N<=16@*/
+void h_ctor_buf(void) { VF_INPUT(S, s); VF_INPUT(unsigned char, c); VF_INPUT(unsigned char, which); __CPROVER_assume(c <= N); XBUF(char, src, c, N);
   if (which == 0) s_ctor_ptr_n(&s, src, c); else if (which == 1) s_ctor_range(&s, src, src + c); else s_ctor_sv(&s, src, c);
   POST(s, sp_splice(sp_empty(), 0, 0, src_in, c), "basic_inplace_string(s, count) / (first, last) / (string_view): exactly the source characters"); VF_REACH(); }
 
-/*@GROUP name=ctor_cstr props=C04,C02,C05 kind=K unwind=36@*/
+/*@GROUP name=ctor_cstr props=C04,C02,C05 kind=K unwind=21 when=VF_N<=16@*/
 void h_ctor_cstr(void) { VF_INPUT(S, s); VF_INPUT(unsigned char, c); __CPROVER_assume(c <= N); CSTR(src, c, N);
   s_ctor_cstr(&s, src); POST(s, sp_splice(sp_empty(), 0, 0, src_in, c), "basic_inplace_string(char const*): the characters before the terminator"); VF_REACH(); }
 
-/*@GROUP name=ctor_substr props=C04,C02,C05 kind=K unwind=36@*/
+/*@GROUP name=ctor_substr props=C04,C02,C05 kind=K unwind=21 when=VF_N<=16@*/
 void h_ctor_substr(void) { VF_INPUT(S, s); ARB(t); VF_INPUT(unsigned long, pos); VF_INPUT(unsigned long, cnt); VF_INPUT(unsigned char, which); view_t b = view_of(&t); __CPROVER_assume(pos <= b.n);
   /* [string.cons]: str.substr(pos, n): rlen = min(n, size - pos) */
   unsigned long rlen = which == 0 ? umin(cnt, b.n - pos) : b.n - pos;
@@ -85,13 +96,13 @@ void h_ctor_substr(void) { VF_INPUT(S, s); ARB(t); VF_INPUT(unsigned long, pos);
   POST(s, sp_splice(sp_empty(), 0, 0, b.a + pos, rlen), "basic_inplace_string(str, pos[, n]): the characters [pos, pos + min(n, size - pos)) of str");
   VF_ASSERT(view_eq(view_of(&t), b) && WF(t), "the source string is unchanged"); VF_REACH(); }
 
-/*@GROUP name=ctor_sv_sub props=C04,C02,C05 kind=K unwind=36@*/
-void h_ctor_sv_sub(void) { VF_INPUT(S, s); VF_INPUT(unsigned char, m); VF_INPUT(unsigned char, pos); VF_INPUT(unsigned long, cnt); __CPROVER_assume(m <= N + 1 && pos <= m); VF_BUF(char, src, m, N + 1);
+/*@GROUP name=ctor_sv_sub props=C04,C02,C05 kind=K unwind=21 when=VF_N<=16@*/
+void h_ctor_sv_sub(void) { VF_INPUT(S, s); VF_INPUT(unsigned char, m); VF_INPUT(unsigned char, pos); VF_INPUT(unsigned long, cnt); __CPROVER_assume(m <= N + 1 && pos <= m); XBUF(char, src, m, N + 1);
   unsigned long rlen = umin(cnt, m - pos); __CPROVER_assume(rlen <= N);
   s_ctor_sv_pos_n(&s, src, m, pos, cnt);
   POST(s, sp_splice(sp_empty(), 0, 0, src_in + pos, rlen), "basic_inplace_string(sv, pos, n): sv.substr(pos, n)"); VF_REACH(); }
 
-/*@GROUP name=copy_move props=C04,C02 kind=K unwind=36@*/
+/*@GROUP name=copy_move props=C04,C02 kind=K unwind=21 when=VF_N<=16@*/
 void h_copy_move(void) { ARB(s); VF_INPUT(S, t); VF_INPUT(unsigned char, which); VF_INPUT(char, x); view_t os = view_of(&s); S *r = &t;
   if (which == 0) s_copy_ctor(&t, &s);
   else if (which == 1) { __CPROVER_assume(WF(t)); r = s_copy_assign(&t, &s); }
@@ -104,29 +115,29 @@ void h_copy_move(void) { ARB(s); VF_INPUT(S, t); VF_INPUT(unsigned char, which);
     if (SZ(t) > 0) { BUF(t)[0] = x; s_pop_back(&t); } VF_ASSERT(view_eq(view_of(&s), os), "independence: mutating the copy leaves the source unchanged"); }
   VF_REACH(); }
 
-/*@GROUP name=self_assign props=C04,C02 kind=K unwind=36@*/
+/*@GROUP name=self_assign props=C04,C02 kind=K unwind=21 when=VF_N<=16@*/
 void h_self_assign(void) { ARB(s); view_t os = view_of(&s); VF_INPUT(unsigned char, which);
   if (which == 0) s_copy_assign(&s, &s); else if (which == 1) s_move_assign(&s, &s); else if (which == 2) s_assign_str(&s, &s); else s_swap(&s, &s);
   VF_ASSERT(WF(s), "C04: self-assignment / self-swap keeps the object well-formed"); if (which != 1) VF_ASSERT(view_eq(view_of(&s), os), "C04: copy self-assignment, assign(*this) and self-swap keep the contents"); VF_REACH(); }
 
-/*@GROUP name=assign_fill props=C04,C02,C05 kind=K unwind=36@*/
+/*@GROUP name=assign_fill props=C04,C02,C05 kind=K unwind=21 when=VF_N<=16@*/
 void h_assign_fill(void) { ARB(s); VF_INPUT(unsigned char, c); VF_INPUT(char, ch); VF_INPUT_BOOL(op); fill_t f = sp_fill(ch); S *r;
   if (op) { c = 1; r = s_opassign_ch(&s, ch); } else { __CPROVER_assume(c <= N); r = s_assign_n_ch(&s, c, ch); }
   POST(s, sp_splice(sp_empty(), 0, 0, f.a, c), "assign(count, ch) / operator=(ch): count copies of ch"); VF_ASSERT(r == &s, "assign returns *this"); VF_REACH(); }
 
-/*@GROUP name=assign_buf props=C04,C02,C05 kind=K unwind=36@*/
-void h_assign_buf(void) { ARB(s); VF_INPUT(unsigned char, c); VF_INPUT(unsigned char, which); __CPROVER_assume(c <= N); VF_BUF(char, src, c, N); S *r;
+/*@GROUP name=assign_buf props=C04,C02,C05 kind=K unwind=21 when=VF_N<=16@*/
+void h_assign_buf(void) { ARB(s); VF_INPUT(unsigned char, c); VF_INPUT(unsigned char, which); __CPROVER_assume(c <= N); XBUF(char, src, c, N); S *r;
   if (which == 0) r = s_assign_ptr_n(&s, src, c); else if (which == 1) r = s_assign_range(&s, src, src + c); else if (which == 2) r = s_assign_sv(&s, src, c); else r = s_opassign_sv(&s, src, c);
   POST(s, sp_splice(sp_empty(), 0, 0, src_in, c), "assign(s, count) / (first, last) / (string_view), operator=(string_view): exactly the source characters"); VF_ASSERT(r == &s, "assign returns *this"); VF_REACH(); }
 
-/*@GROUP name=assign_cstr props=C04,C02,C05 kind=K unwind=36@*/
+/*@GROUP name=assign_cstr props=C04,C02,C05 kind=K unwind=21 when=VF_N<=16@*/
 void h_assign_cstr(void) { ARB(s); VF_INPUT(unsigned char, c); VF_INPUT_BOOL(op); __CPROVER_assume(c <= N); CSTR(src, c, N); S *r;
   if (op) r = s_opassign_cstr(&s, src); else r = s_assign_cstr(&s, src);
   POST(s, sp_splice(sp_empty(), 0, 0, src_in, c), "assign(char const*) / operator=(char const*): the characters before the terminator"); VF_ASSERT(r == &s, "assign returns *this"); VF_REACH(); }
 
-/*@GROUP name=assign_sub props=C04,C02,C05 kind=K unwind=36@*/
+/*@GROUP name=assign_sub props=C04,C02,C05 kind=K unwind=21 when=VF_N<=16@*/
 void h_assign_sub(void) { ARB(s); ARB(t); VF_INPUT(unsigned long, pos); VF_INPUT(unsigned long, cnt); VF_INPUT(unsigned char, m); VF_INPUT(unsigned char, which); view_t b = view_of(&t); S *r;
-  __CPROVER_assume(m <= N + 1); VF_BUF(char, src, m, N + 1);
+  __CPROVER_assume(m <= N + 1); XBUF(char, src, m, N + 1);
   if (which <= 1) { __CPROVER_assume(pos <= b.n); unsigned long rlen = which == 0 ? umin(cnt, b.n - pos) : b.n - pos;
     r = which == 0 ? s_assign_str_pos_n(&s, &t, pos, cnt) : s_assign_str_pos(&s, &t, pos);
     POST(s, sp_splice(sp_empty(), 0, 0, b.a + pos, rlen), "assign(str, pos[, n]): str.substr(pos, n)"); VF_ASSERT(view_eq(view_of(&t), b) && WF(t), "the source string is unchanged"); }
@@ -134,3 +145,50 @@ void h_assign_sub(void) { ARB(s); ARB(t); VF_INPUT(unsigned long, pos); VF_INPUT
     r = which == 2 ? s_assign_sv_pos_n(&s, src, m, pos, cnt) : s_assign_sv_pos(&s, src, m, pos);
     POST(s, sp_splice(sp_empty(), 0, 0, src_in + pos, rlen), "assign(sv, pos[, n]): sv.substr(pos, n)"); }
   VF_ASSERT(r == &s, "assign returns *this"); VF_REACH(); }
+
+/* ---- append: the overloads built on append(count, ch) / append(s, count) CLAMP to the capacity ("maximum up to its capacity"); the ones built on
+ * push_back (append(first, last), append(str), operator+=(str)) have the contract size() < capacity() per appended character: they are specified
+ * for results that fit, exceeding calls are in viol_grow. */
+/*@GROUP name=append_fill props=C04,C02,C05 kind=K unwind=21 when=VF_N<=16@*/
+void h_append_fill(void) { ARB(s); VF_INPUT(unsigned long, c); VF_INPUT(char, ch); VF_INPUT(unsigned char, which); view_t o = view_of(&s); fill_t f = sp_fill(ch); S *r = &s;
+  if (which == 0) r = s_append_n_ch(&s, c, ch); else if (which == 1) { c = 1; r = s_pluseq_ch(&s, ch); } else { c = 1; __CPROVER_assume(o.n < N); s_push_back(&s, ch); }
+  POST(s, sp_splice(o, o.n, 0, f.a, umin(c, N - o.n)), "append(count, ch) / operator+=(ch) / push_back(ch): min(count, capacity - size) copies of ch are appended, the prefix is unchanged");
+  VF_ASSERT(r == &s, "append returns *this"); CAPACITY_UNCHANGED(s); VF_REACH(); }
+
+/*@GROUP name=append_buf props=C04,C02,C05 kind=K unwind=21 when=VF_N<=16@*/
+void h_append_buf(void) { ARB(s); VF_INPUT(unsigned char, c); VF_INPUT(unsigned char, which); __CPROVER_assume(c <= N + 1); XBUF(char, src, c, N + 1); view_t o = view_of(&s); S *r;
+  if (which == 0) r = s_append_ptr_n(&s, src, c); else if (which == 1) r = s_append_sv(&s, src, c); else r = s_pluseq_sv(&s, src, c);
+  POST(s, sp_splice(o, o.n, 0, src_in, umin(c, N - o.n)), "append(s, count) / (string_view), operator+=(string_view): the first min(count, capacity - size) source characters are appended");
+  VF_ASSERT(r == &s, "append returns *this"); VF_REACH(); }
+
+/*@GROUP name=append_range props=C04,C02,C05 kind=K unwind=21 when=VF_N<=16 objbits=12@*/
+void h_append_range(void) { ARB(s); VF_INPUT(unsigned char, c); view_t o = view_of(&s); __CPROVER_assume(c <= N - o.n); XBUF(char, src, c, N);
+  S *r = s_append_range(&s, src, src + c);
+  POST(s, sp_splice(o, o.n, 0, src_in, c), "append(first, last): the source range is appended"); VF_ASSERT(r == &s, "append returns *this"); VF_REACH(); }
+
+/*@GROUP name=append_cstr props=C04,C02,C05 kind=K unwind=21 when=VF_N<=16@*/
+void h_append_cstr(void) { ARB(s); VF_INPUT(unsigned char, c); VF_INPUT_BOOL(op); __CPROVER_assume(c <= N + 1); CSTR(src, c, N + 1); view_t o = view_of(&s); S *r;
+  if (op) r = s_pluseq_cstr(&s, src); else r = s_append_cstr(&s, src);
+  POST(s, sp_splice(o, o.n, 0, src_in, umin(c, N - o.n)), "append(char const*) / operator+=(char const*): the first min(strlen, capacity - size) characters are appended"); VF_ASSERT(r == &s, "append returns *this"); VF_REACH(); }
+
+/*@GROUP name=append_str props=C04,C02,C05 kind=K unwind=21 when=VF_N<=16 objbits=12@*/
+void h_append_str(void) { ARB(s); ARB(t); VF_INPUT(unsigned char, pos); VF_INPUT(unsigned long, cnt); VF_INPUT(unsigned char, which); view_t o = view_of(&s), b = view_of(&t); S *r;
+  if (which <= 1) { pos = 0; cnt = NPOS; } else if (which >= 3) cnt = NPOS;
+  __CPROVER_assume(pos <= b.n); unsigned long rlen = umin(cnt, b.n - pos); __CPROVER_assume(rlen <= N - o.n);
+  if (which == 0) r = s_append_str(&s, &t); else if (which == 1) r = s_pluseq_str(&s, &t); else if (which == 2) r = s_append_str_pos_n(&s, &t, pos, cnt); else r = s_append_str_pos(&s, &t, pos);
+  POST(s, sp_splice(o, o.n, 0, b.a + pos, rlen), "append(str[, pos[, n]]) / operator+=(str): str.substr(pos, n) is appended"); VF_ASSERT(r == &s, "append returns *this");
+  VF_ASSERT(view_eq(view_of(&t), b) && WF(t), "the source string is unchanged"); VF_REACH(); }
+
+/*@GROUP name=append_sv_sub props=C04,C02,C05 kind=K unwind=21 when=VF_N<=16@*/
+void h_append_sv_sub(void) { ARB(s); VF_INPUT(unsigned char, m); VF_INPUT(unsigned char, pos); VF_INPUT(unsigned long, cnt); __CPROVER_assume(m <= N + 1 && pos <= m); XBUF(char, src, m, N + 1); view_t o = view_of(&s);
+  unsigned long rlen = umin(cnt, m - pos); S *r = s_append_sv_pos_n(&s, src, m, pos, cnt);
+  POST(s, sp_splice(o, o.n, 0, src_in + pos, umin(rlen, N - o.n)), "append(sv, pos, n): the first min(rlen, capacity - size) characters of sv.substr(pos, n) are appended"); VF_ASSERT(r == &s, "append returns *this"); VF_REACH(); }
+
+/*@GROUP name=append_sv_pos props=C04,C02,C05 kind=K unwind=21 when=VF_N<=16@*/
+void h_append_sv_pos(void) { ARB(s); VF_INPUT(unsigned char, m); VF_INPUT(unsigned char, pos); __CPROVER_assume(m <= N + 1 && pos <= m); XBUF(char, src, m, N + 1); view_t o = view_of(&s);
+  S *r = s_append_sv_pos(&s, src, m, pos);
+  POST(s, sp_splice(o, o.n, 0, src_in + pos, umin(m - pos, N - o.n)), "append(sv, pos): the first min(sv.size() - pos, capacity - size) characters of sv.substr(pos) are appended"); VF_ASSERT(r == &s, "append returns *this"); VF_REACH(); }
+
+/*@GROUP name=pop_back props=C04,C02,C05 kind=K unwind=21 when=VF_N<=16@*/
+void h_pop_back(void) { ARB(s); view_t o = view_of(&s); __CPROVER_assume(o.n > 0); s_pop_back(&s);
+  POST(s, sp_splice(o, o.n - 1, 1, o.a, 0), "pop_back: the last character is removed, the prefix is unchanged"); VF_REACH(); }
